@@ -719,9 +719,15 @@ func (w *walker) exprx(e ast.Expr, held lockset, mode string, deep bool) {
 			if name, ok := trackedObj[o]; ok {
 				w.recordAt(x.Pos(), name, mode, held, x, deep)
 			}
+			if fn, ok := o.(*types.Func); ok {
+				valueUsed[fn] = true // a function used as a value can be called from anywhere
+			}
 		}
 	case *ast.SelectorExpr:
 		if sel := info.Selections[x]; sel != nil {
+			if fn, ok := sel.Obj().(*types.Func); ok {
+				valueUsed[fn] = true // method value
+			}
 			if name, ok := trackedObj[sel.Obj()]; ok && sel.Kind() == types.FieldVal {
 				w.recordAt(x.Sel.Pos(), name, mode, held, x, deep)
 			}
@@ -737,10 +743,13 @@ func (w *walker) exprx(e ast.Expr, held lockset, mode string, deep bool) {
 			w.expr(x.X, held, inner)
 			return
 		}
-		// qualified identifier pkg.Var
+		// qualified identifier pkg.Var / pkg.Func
 		if o, ok := info.Uses[x.Sel]; ok {
 			if name, ok := trackedObj[o]; ok {
 				w.recordAt(x.Sel.Pos(), name, mode, held, x, deep)
+			}
+			if fn, ok := o.(*types.Func); ok {
+				valueUsed[fn] = true
 			}
 		}
 	case *ast.IndexExpr:
@@ -955,12 +964,12 @@ func (w *walker) call(call *ast.CallExpr, held lockset, isGo bool) {
 					}
 				}
 			}
-		} else {
-			w.expr(call.Fun, held, "read")
+		} else if fn == nil {
+			w.expr(call.Fun, held, "read") // a func-typed field or variable being called
 		}
 	} else if _, isLit := call.Fun.(*ast.FuncLit); isLit {
 		w.expr(call.Fun, held, "read") // literal invoked (go func(){..}() / defer func(){..}()): starts empty
-	} else {
+	} else if fn == nil {
 		w.expr(call.Fun, held, "read")
 	}
 	for _, a := range call.Args {
